@@ -9,6 +9,7 @@ from ..runner import canon
 
 MODULE = "Props.C12"
 THEOREMS = ["C12_single_use_delivered_at_most_once", "C12_single_use_value_has_one_owner", "C12_raced_value_is_not_lost",
+            "C12_exactly_one_receiver", "C12_receiving_step_returns_the_value", "C12_receiver_nonvacuous",
             "C12_slot_request", "C12_sequential",
             "C12_repeat_use_never_single_use", "C12_builder_refuses_multi_use_of_non_clone",
             "C12_non_clone_stored_single_use", "C12_nonvacuous"]
